@@ -96,14 +96,17 @@ def ensure_built(verbose=False):
         r = _run(['timeout', '2400', 'make', '-j16'], cwd=COQ)
         if r.returncode != 0:
             return False, r.stdout.decode()[-4000:]
-        drv = os.path.join(OCAML, 'driver')
-        srcs = [os.path.join(OCAML, f) for f in ('model.ml', 'model.mli', 'driver.ml')]
-        if (not os.path.exists(drv)
-                or any(os.path.getmtime(s) > os.path.getmtime(drv) for s in srcs)):
-            r = _run(['ocamlfind', 'ocamlopt', '-O3', '-w', '-a', 'model.mli', 'model.ml',
-                      'driver.ml', '-o', 'driver'], cwd=OCAML, timeout=600)
-            if r.returncode != 0:
-                return False, r.stdout.decode()[-4000:]
+        for drv_name, mod_name in (('driver', 'model'), ('vdriver', 'vmodel')):
+            drv = os.path.join(OCAML, drv_name)
+            srcs = [os.path.join(OCAML, f) for f in (mod_name + '.ml', mod_name + '.mli', drv_name + '.ml')]
+            if not all(os.path.exists(s) for s in srcs):
+                return False, 'missing extracted sources for ' + drv_name
+            if (not os.path.exists(drv)
+                    or any(os.path.getmtime(s) > os.path.getmtime(drv) for s in srcs)):
+                r = _run(['ocamlfind', 'ocamlopt', '-O3', '-w', '-a', mod_name + '.mli', mod_name + '.ml',
+                          drv_name + '.ml', '-o', drv_name], cwd=OCAML, timeout=600)
+                if r.returncode != 0:
+                    return False, r.stdout.decode()[-4000:]
         return True, ''
     finally:
         fcntl.flock(lock, fcntl.LOCK_UN)
